@@ -106,6 +106,15 @@ def make_flag_class(signals):
                     v = ds.raw(self, "_go")
                     s.emit("flag", self._vtag, bool(v))
             return v
+
+        def go(self):
+            # `self.closed.go()` for a stop marker inside an extend() batch: a step of its own even when the queue is closed already
+            f = sys._getframe(1)
+            if f.f_code.co_name == "extend" and f.f_code.co_filename.endswith("queues.py"):
+                s = ds.CUR
+                if s is not None and s.me() is not None:
+                    s.emit("flaggo", self._vtag, bool(ds.raw(self, "_go")))
+            return signals.Signal.go(self)
     return TracedFlag
 
 
@@ -139,7 +148,10 @@ def gen_scenario(rng, prop="C07"):
                 ops.append([op, nv(), ntills])
                 ntills += 1
             elif op == "extend":
-                ops.append([op, [nv() for _ in range(rng.randint(1, 3))]])
+                batch = [nv() for _ in range(rng.randint(1, 3))]
+                if rng.random() < (0.35 if prop == "C09" else 0.08):
+                    batch.insert(rng.randint(0, len(batch)), 0)       # 0 = PLEASE_STOP inside the batch
+                ops.append([op, batch])
             elif op == "pop_till":
                 ops.append([op, ntills])
                 ntills += 1
@@ -156,8 +168,15 @@ def gen_scenario(rng, prop="C07"):
             "silent": silent, "nstall": 0 if silent else rng.choice([0, 1, 2, 3])}
 
 
-def gen_c20(rng):
-    """C20 on queues: threads parked in pop() on an empty queue / in add() on a full one, with little or no other activity"""
+def gen_c20(rng, join=False):
+    """C20 on queues: threads parked in pop() on an empty queue / in add() on a full one, with little or no other activity;
+    join=True: a thread parked in Queue.join() on a closed queue that still holds values (not part of the Lean model: monitors only)"""
+    if join:
+        sc = {"max": 4, "threads": [[["close"], ["join"]]], "fire": [], "ntills": 0, "prefill": [100, 101][:rng.randint(1, 2)], "allow": False,
+              "close_at_end": False, "silent": rng.random() < 0.5, "nstall": 0, "c20": True}
+        if rng.random() < 0.5:
+            sc["threads"].append([["pop"]])
+        return sc
     kind = rng.choice(["idle", "idle", "full", "full", "mixed"])
     silent = rng.random() < 0.4
     sc = {"max": 1, "threads": [], "fire": [], "ntills": 0, "prefill": [], "allow": False, "close_at_end": False,
@@ -180,16 +199,25 @@ def gen_c20(rng):
 
 def shape(sc):
     ab = {"add": "a", "add_till": "A", "add_force": "f", "push": "p", "extend": "e", "pop": "o", "pop_till": "O",
-          "pop_one": "1", "pop_all": "*", "len": "l", "close": "c", "add_stop": "S"}
+          "pop_one": "1", "pop_all": "*", "len": "l", "close": "c", "add_stop": "S", "join": "j"}
     return "m%d:%s:f%d%s%s" % (sc["max"], "/".join("".join(ab[o[0]] for o in t) for t in sc["threads"]), len(sc["fire"]),
                                ":C" if sc["close_at_end"] else "", "" if sc.get("silent", True) else ":loud%d" % sc.get("nstall", 0))
+
+
+def gen_long_idle(rng):
+    """a consumer blocked in pop() without a till on an empty, open queue for more than ten (virtual) minutes — longer than
+    any default deadline a Queue method might be tempted to invent — then a value arrives"""
+    return {"max": rng.choice([1, 4]), "threads": [[["pop"]]], "fire": [], "ntills": 0, "prefill": [], "allow": False, "close_at_end": False,
+            "silent": True, "nstall": 0, "late_add": [605.0 + rng.randint(0, 3), 7]}     # (silent: the real Till class stays in place)
 
 
 def run_scenario(sc, chooser=None, seed=0, max_steps=6000):
     ds.install()
     ds.reset_globals()
     from mo_threads import queues, signals, lock as lockmod
-    sched = ds.Sched(chooser=chooser, seed=seed, max_steps=max_steps, horizon=1.0)
+    if sc.get("late_add"):
+        max_steps = 120000
+    sched = ds.Sched(chooser=chooser, seed=seed, max_steps=max_steps, horizon=(sc["late_add"][0] + 2.0 if sc.get("late_add") else 1.0))
     Flag = make_flag_class(signals)
     please_stop_timers, _ = ds.start_timers(sched)
     st = {"viol": [], "hist": [], "results": {}, "maxlen_open": 0}
@@ -298,8 +326,10 @@ def run_scenario(sc, chooser=None, seed=0, max_steps=6000):
                         r = "ok"
                     elif kind == "extend":
                         sched.note("call", ti, "extend", ",".join(str(v) for v in op[1]))
-                        q.extend(op[1])
+                        q.extend([(STOP if v == 0 else v) for v in op[1]])
                         r = "ok"
+                        if 0 in op[1] and not ds.raw(q.closed, "_go"):
+                            st["viol"].append("C09: extend() of a batch that contains the stop marker returned with the queue still open")
                     elif kind == "pop":
                         sched.note("call", ti, "pop", "-")
                         r = q.pop()
@@ -318,6 +348,10 @@ def run_scenario(sc, chooser=None, seed=0, max_steps=6000):
                     elif kind == "close":
                         sched.note("call", ti, "close")
                         q.close()
+                        r = "ok"
+                    elif kind == "join":
+                        sched.note("call", ti, "join")
+                        q.join()
                         r = "ok"
                     elif kind == "add_stop":
                         sched.note("call", ti, "add_stop")
@@ -358,6 +392,20 @@ def run_scenario(sc, chooser=None, seed=0, max_steps=6000):
             q.close()
     if sc["fire"] or sc["close_at_end"]:
         sched.spawn("env", env)
+
+    if sc.get("late_add"):
+        def late():
+            sched.until(sc["late_add"][0])
+            h = {"t": 9, "op": ["add", sc["late_add"][1]], "call": len(sched.events), "ret": None, "r": None}
+            st["hist"].append(h)
+            sched.note("call", 9, "add", sc["late_add"][1], 999, 0)
+            st["external"] += 1
+            q.add(sc["late_add"][1], till=_never)
+            sched.note("ret", 9, "add", "ok")
+            h["ret"] = len(sched.events)
+            h["r"] = "ok"
+            st["results"].setdefault(9, []).append((["add", sc["late_add"][1]], "ok"))
+        sched.spawn("t9", late)
 
     def staller():
         # fires stall timers, oldest first, once their owner is parked on them (a 5 s timer does not expire before that)
@@ -447,6 +495,7 @@ def to_lines(events):
     """scheduler events -> protocol lines; `wake t True` becomes `env signal t` placed before the re-acquire"""
     lines = []
     last_acq = {}
+    skip_w = {}
     for ev in events:
         if ev[0] == "-":
             if ev[1] == "note":
@@ -495,8 +544,15 @@ def to_lines(events):
                 lines.append("step %s closed %s" % (t, ev[3]))
             else:
                 lines.append("step %s till %s %s" % (t, tag[1:], ev[3]))
-        elif kind == "W" and ev[3] == "_go" and ev[2] == "closed":
+        elif kind == "flaggo" and ev[2] == "closed":
             lines.append("step %s close" % t)
+            if not ev[3]:
+                skip_w[t] = skip_w.get(t, 0) + 1      # the flag write that follows is this very step
+        elif kind == "W" and ev[3] == "_go" and ev[2] == "closed":
+            if skip_w.get(t, 0) > 0:
+                skip_w[t] -= 1
+            else:
+                lines.append("step %s close" % t)
     # a close()/add(PLEASE_STOP) on an already closed queue writes nothing: give the model its (idempotent) close step
     out = []
     open_close = {}
@@ -536,7 +592,7 @@ def linearizable(hist, prefill, final):
         if k in ("add", "add_till", "add_force"):
             return state + (h["op"][1],)
         if k == "extend":
-            return state + tuple(h["op"][1])
+            return state + tuple(v for v in h["op"][1] if v != 0)
         if k == "push":
             return (h["op"][1],) + state
         if k in ("pop", "pop_till"):
@@ -603,7 +659,7 @@ def monitors(sc, lines, st, outcome, stuck, final, closed):
             spec = []
     if spec != final:
         viol.append("C07: final contents %s differ from the sequential replay %s" % (final, spec))
-    closing = sc["close_at_end"] or any(op[0] in ("close", "add_stop") for t in sc["threads"] for op in t)
+    closing = sc["close_at_end"] or any(op[0] in ("close", "add_stop") or (op[0] == "extend" and 0 in op[1]) for t in sc["threads"] for op in t)
     if outcome == "done" and not closing:      # what a closed queue returns is C09's subject, not part of the FIFO specification
         why = linearizable(st["hist"], list(sc["prefill"]), final)
         if why:
@@ -635,7 +691,7 @@ def monitors(sc, lines, st, outcome, stuck, final, closed):
             if op[0] in ("add", "add_till", "add_force", "push") and r == "ok":
                 all_added.add(op[1])
             if op[0] == "extend" and r == "ok":
-                all_added.update(op[1])
+                all_added.update(v for v in op[1] if v != 0)
     lost = all_added - set(returned) - set(final)
     if outcome in ("done", "stuck") and lost:
         viol.append("C07: values %s were added but neither delivered nor still queued" % sorted(lost, key=str))
